@@ -284,26 +284,41 @@ class Built:
 MECHS = ["lookup", "wif", "keychain"]
 
 
-def pycoin_sign(built, tx, mech, key_idxs, hash_type=None, idx_set=None, scripts=None, uncompressed=()):
+def _as_form(seq, form):
+    """the same sequence of values handed over as a list, a tuple, a one-shot iterator or a generator"""
+    seq = list(seq)
+    if form == 0:
+        return seq
+    if form == 1:
+        return tuple(seq)
+    if form == 2:
+        return iter(seq)
+    return (x for x in seq)
+
+
+def pycoin_sign(built, tx, mech, key_idxs, hash_type=None, idx_set=None, scripts=None, uncompressed=(), forms=0):
     """call pycoin's signer through one of the three key-supply mechanisms.
 
     key_idxs: ring indices whose secrets are supplied;  scripts: p2sh / p2wsh preimages supplied;
     uncompressed: ring indices that some input uses in uncompressed form (keychain mechanism only: a keychain indexes
-    hierarchical keys by their compressed hash160, so those keys are also added as plain secrets)."""
+    hierarchical keys by their compressed hash160, so those keys are also added as plain secrets);
+    forms: selects the container form (list / tuple / iterator / generator; set / frozenset / list / tuple for the index
+    set) in which the iterable arguments are handed over - the documented parameter types are iterables."""
+    f_scripts, f_keys, f_idx = forms % 4, (forms // 4) % 4, (forms // 16) % 4
     net = built.net
     scripts = built.all_scripts() if scripts is None else scripts
     kwargs = {}
     if hash_type is not None:
         kwargs["hash_type"] = hash_type
     if idx_set is not None:
-        kwargs["tx_in_idx_set"] = set(idx_set)
+        kwargs["tx_in_idx_set"] = (set, frozenset, list, tuple)[f_idx](idx_set)
     if mech == "lookup":
-        hl = net.tx.solve.build_hash160_lookup([RING_D[k] for k in key_idxs])
-        tx.sign(hl, p2sh_lookup=net.tx.solve.build_p2sh_lookup(scripts), **kwargs)
+        hl = net.tx.solve.build_hash160_lookup(_as_form([RING_D[k] for k in key_idxs], f_keys))
+        tx.sign(hl, p2sh_lookup=net.tx.solve.build_p2sh_lookup(_as_form(scripts, f_scripts)), **kwargs)
     elif mech == "wif":
         unc = set(uncompressed)
         wifs = [net.keys.private(secret_exponent=RING_D[k], is_compressed=k not in unc).wif() for k in key_idxs]
-        net.tx_utils.sign_tx(tx, wifs, p2sh_lookup=net.tx.solve.build_p2sh_lookup(scripts), **kwargs)
+        net.tx_utils.sign_tx(tx, _as_form(wifs, f_keys % 2), p2sh_lookup=net.tx.solve.build_p2sh_lookup(_as_form(scripts, f_scripts)), **kwargs)
     elif mech == "keychain":
         kc = net.keychain()
         masters = [net.keys.bip32_seed(s) for s in SEEDS]
@@ -314,7 +329,7 @@ def pycoin_sign(built, tx, mech, key_idxs, hash_type=None, idx_set=None, scripts
             kc.add_key_paths(master, [p for p in paths if "H" in p])
         kc.add_secrets(masters)
         kc.add_secrets([net.keys.private(secret_exponent=RING_D[k]) for k in key_idxs if k in set(uncompressed)])
-        kc.add_p2s_scripts(scripts)
+        kc.add_p2s_scripts(_as_form(scripts, f_scripts))
         tx.sign(kc, p2sh_lookup=kc, **kwargs)
     else:
         raise ValueError(mech)
